@@ -99,6 +99,11 @@ class ScrapliFormatter(Formatter_):
             record.host = ""
             record.port = ""
             _host_port = ""
+        elif not hasattr(record, "port"):
+            # host but no port (i.e. a record from a users own logger), same deal as above -- assign
+            # the port to the record so formatting does not fail
+            record.port = ""
+            _host_port = f"{record.host}"
         else:
             _host_port = f"{record.host}:{record.port}"
 
